@@ -14,7 +14,7 @@ import (
 func init() {
 	register(Property{ID: "C31", Level: "other", Run: runC31,
 		Technique: "static analysis: whole-module origin classification (location class) of every time.Time that reaches recordstore.Path.Encode as Start, traced through struct fields, parameters, closures and returns (go/ssa); sibling agreement of the three record-path format builders; must-pass-through and argument binding on api.onRecordingDeleteSegment; origin of the start instants reported by the list endpoints",
-		Text:      "Decides: (1) Path.Decode reads zone-less names in time.Local, so every Start given to Path.Encode must be in time.Local (or Encode must normalise): each origin leaf of each of the three Encode sites (fMP4 recorder, MPEG-TS recorder, API delete) is classified local (time.Now/time.Unix/.Local()/In(time.Local)), zero, parsed (time.Parse: location taken from the text), nonlocal (.UTC()/In(other)) or unknown; anything but local/zero is a violation naming site and leaf; (2) the API delete handler removes exactly one file, whose name is Encode(format) with format built like the recorder's and FindSegments' (PathAddExtension(ReplaceAll(recordPath, \"%path\", name), recordFormat)) from the configuration found for the same name, only after the instant parsed and the path resolved; (3) the list endpoints report the Start decoded by FindSegments (location changes allowed, no rounding). Not decided: that package time maps instants to wall clocks correctly; DST ambiguity of zone-less names.",
+		Text:      "Decides: (1) Path.Decode reads zone-less names in time.Local, so every Start given to Path.Encode must be in time.Local (or Encode must normalise): each origin leaf of each of the three Encode sites (fMP4 recorder, MPEG-TS recorder, API delete) is classified local (time.Now/time.Unix/.Local()/In(time.Local)), zero, parsed (time.Parse: location taken from the text), nonlocal (.UTC()/In(other)) or unknown; anything but local/zero is a violation naming site and leaf; (2) the API delete handler removes exactly one file, whose name is Encode(format) with format built like the recorder's and FindSegments' (PathAddExtension(ReplaceAll(recordPath, \"%path\", name), recordFormat)) from the configuration found for the same name, only after the instant parsed and the path resolved; (3) the list endpoints report the Start decoded by FindSegments (location changes allowed, no rounding); (4) recordstore.FindSegments - shared by the API listing, playback /list and /get - attributes an instant to the segment that starts at it: its code after the sort of the collected list is executed by an SSA interpreter inside the checker on models of 1..4 segments, and for a start equal to the start instant of segment k (the instants the listing reports) the returned list must be segments[k:] with a nil error, likewise for an instant inside segment k or before the first one; whatever the search is written as (scan, sort.Search, helper), a comparison that is inclusive/strict on the wrong side is reported with the failing model. Not decided: the collection phase of FindSegments (WalkDir, end filter); that package time maps instants to wall clocks correctly; DST ambiguity of zone-less names.",
 		Note:      "trusted: go/ssa; third-party time sources are classified by a table established by reading (gortsplib ntp.Decode = time.Unix: local; gohlslib Client.AbsoluteTime = time.Parse of EXT-X-PROGRAM-DATE-TIME: parsed); struct-field flow is flow-insensitive over all stores of the field in the module"})
 	addMutants(
 		// Encode no longer normalises: the parsed / playlist-located origins are reported again
@@ -40,6 +40,14 @@ func init() {
 			"	start, _ := time.Parse(time.RFC3339, ctx.Query(\"start\"))\n", "C31.delete.guards"},
 		Mutant{"C31", "list-start-truncated", "internal/api/api_recordings.go",
 			"			Start: seg.Start,\n", "			Start: seg.Start.Truncate(time.Second),\n", "C31.list_start"},
+		// the instant that is the start of segment i+1 is attributed to segment i
+		Mutant{"C31", "find-upper-bound-inclusive", "internal/recordstore/segment.go",
+			"if !start.Before(segments[i].Start) && start.Before(segments[i+1].Start) {", "if !start.Before(segments[i].Start) && !start.After(segments[i+1].Start) {", "C31.find_by_instant.equal"},
+		// the instant that is the start of segment i is no longer attributed to segment i
+		Mutant{"C31", "find-lower-bound-strict", "internal/recordstore/segment.go",
+			"if !start.Before(segments[i].Start) && start.Before(segments[i+1].Start) {", "if start.After(segments[i].Start) && start.Before(segments[i+1].Start) {", "C31.find_by_instant.equal"},
+		Mutant{"C31", "find-scan-skips-first-pair", "internal/recordstore/segment.go",
+			"		for i := 0; i < len(segments)-1; i++ {", "		for i := 1; i < len(segments)-1; i++ {", "C31.find_by_instant"},
 		Mutant{"C31", "recorder-format-other-name", "internal/recorder/recorder_instance.go",
 			"strings.ReplaceAll(ri.pathFormat2, \"%path\", ri.pathName),", "strings.ReplaceAll(ri.pathFormat2, \"%path\", ri.pathFormat),", "C31.format_siblings"},
 	)
@@ -80,11 +88,15 @@ func runC31(c *Ctx) {
 		"C31.format_siblings: recorderInstance.initialize, recordstore.FindSegments and api.onRecordingDeleteSegment build the name format as PathAddExtension(ReplaceAll(<RecordPath>, \"%path\", <path name>), <RecordFormat>) of one configuration. " +
 		"C31.delete.*: a single os.Remove whose argument is (absolutePathInside of) Path{Start}.Encode(that format), reached only after time.Parse and FindPathConf succeeded for the queried name. " +
 		"C31.list_start: APIRecordingSegment.Start and the playback list entries derive from Segment.Start (Decode) without rounding. " +
-		"Not decided: wall-clock arithmetic of package time, DST-ambiguous zone-less names."
+		"C31.find_by_instant.{equal,inside}: the code of recordstore.FindSegments after the sort of the collected list is executed by an SSA interpreter (in the checker) on models of 1..4 segments with the requested instant equal to / inside / before a segment start, and the list returned is compared with segments[k:], nil; a scenario the interpreter cannot evaluate exactly fails. " +
+		"Not decided: wall-clock arithmetic of package time, DST-ambiguous zone-less names, the collection phase of FindSegments."
 	c.Assume = []string{
 		"recordstore.Path.Decode interprets zone-less names in time.Local (decided by C26.component)",
 		"third-party time sources are as tabled (gortsplib v5.6.4, gohlslib v2.4.3)",
 	}
+
+	// the routine shared by listing and playback attributes an instant to the segment that starts at it (prop_r4_c31.go)
+	c31FindByInstant(c, p)
 
 	enc := c.fn(p, "internal/recordstore", "Path", "Encode")
 	if enc == nil {
